@@ -315,6 +315,8 @@ class SimWorld:
 
     # ----- time ------------------------------------------------------------------------------
     def sleep(self, seconds: float):
+        if seconds < 0:
+            raise ValueError("sleep length must be non-negative")   # as CPython's time.sleep
         self.clock += int(round(seconds * 1e9))
 
     def monotonic_ns(self) -> int:
